@@ -47,6 +47,16 @@ fn in_source_order(items: &HashMap<Identifier, ParserType>) -> Vec<(&Identifier,
     items
 }
 
+/// Orders two colliding locations in the same file so that the one written
+/// later comes first.
+fn later_first(a: Span, b: Span) -> (Span, Span) {
+    if a.file_id == b.file_id && b.line_start > a.line_start {
+        (b, a)
+    } else {
+        (a, b)
+    }
+}
+
 trait Help {
     fn help(self, resolver: &Resolver, span: Span, message: String) -> Self;
     fn help_no_span(self, message: String) -> Self;
@@ -1119,9 +1129,12 @@ impl Resolver {
                                 Name::Name(r) => self.variables[*r].definition,
                                 Name::Namespace(_, span) => *span,
                             };
+                            // Definitions are registered before imports, report the
+                            // collision where the later of the two is written.
+                            let (at, span) = later_first(stmt.span, span);
                             let err = resolution_error!(
                                 self,
-                                stmt.span,
+                                at,
                                 "Name collision - duplicate definitions of {:?}",
                                 name.name()
                             );
@@ -1175,9 +1188,10 @@ impl Resolver {
                                     Name::Name(r) => self.variables[*r].definition,
                                     Name::Namespace(_, span) => *span,
                                 };
+                                let (at, span) = later_first(var.span, span);
                                 let err = resolution_error!(
                                     self,
-                                    var.span,
+                                    at,
                                     "A Name collision - duplicate definitions of {:?}",
                                     var.name
                                 );
